@@ -88,6 +88,7 @@ type Exec struct {
 	matchedCalls  map[string]bool
 	pureFuncs     map[string]bool
 	mergingSnap   bool
+	detExt        map[string]bool
 	preludeText   string
 	labels        map[string]*State
 	exit          *State
@@ -103,6 +104,7 @@ func (x *Exec) initMaps() {
 	x.usedContracts = map[string]bool{}
 	x.matchedCalls = map[string]bool{}
 	x.pureFuncs = map[string]bool{}
+	x.detExt = map[string]bool{}
 	x.labels = map[string]*State{}
 	if x.regs == nil {
 		x.regs = map[ssa.Value]*Val{}
